@@ -29,6 +29,10 @@ def gen_image(rng, cpu=None, max_bytes=6000, max_segments=5, small=False):
     total = 0
     for i in range(nseg):
         ln = rng.pick(LENS) if rng.chance(3, 4) else rng.range(1, 300)
+        if not small and i == 0 and max_bytes >= 6000 and rng.chance(1, 40):
+            # one run longer than a writer's 64 KiB block buffer / page
+            ln = rng.pick([65535, 65536, 65537, 70000])
+            max_bytes = max(max_bytes, ln + 3000)
         if small:
             ln = min(ln, 40)
         if total + ln > max_bytes:
